@@ -1,9 +1,13 @@
 package c10
 
-// Known-finding classes of regular-expression tag filters, defined on the SYNTAX of the pattern only (not on
-// the implementation), one class per root cause found on the pinned tree. The main generators leave these
-// classes out by construction (counted in `excluded_by_construction`); every class has a minimal replay under
-// replays/C10/. Everything outside these classes stays fully searched.
+// Known-finding classes of regular-expression tag filters, one class per root cause found on the pinned tree.
+// The main generators leave these classes out by construction (counted in `excluded_by_construction`); every
+// class has a minimal replay under replays/C10/. Everything outside these classes stays fully searched.
+//
+// The decision which pattern belongs to a class is taken in classify_test.go (knownRegexDefect) from a frozen
+// model of the index's regex optimiser (optmodel_test.go) plus a differential run over probe strings
+// (probe_test.go). This file holds the first, purely syntactic classifier (legacyRegexDefect), kept as an
+// additional conservative stage, its helpers, and the predicate-level class (knownPredDefect).
 
 import (
 	"os"
